@@ -36,6 +36,9 @@ CHECKS = {
  'C15': dict(level='exploration', tech='runtime monitor: wrapper on calculate_strain_stress / calculate_volumetric_heating asserting the constitutive law, the three radial-traction identities and signed dissipation at every grid point',
              text='Randomised exploration over complex radial functions, radii, complex moduli, l=2..4, real TidalPy potential modes and synthetic degree-l harmonics with analytic derivatives, on random 4-D grids; compiled and interpreted executions.',
              note='Input potentials are pre-checked against the degree-l Laplace identity; the signed dissipation is recomputed from the returned tensors because the library applies abs().', ref='4/C15'),
+ 'C16': dict(level='exploration', tech='runtime monitor: icontract post-conditions on the real builder functions (geometry/mass invariants, name distinctness, scaling), deep input snapshots, and a sys.monitoring LINE budget on build_from_world as the logical clock for termination',
+             text='All shipped non-BurnMan configurations plus randomised 1-6 layer configurations (radius/thickness/density/mass/mass-fraction variants), scale factors in [0.1,10] and derivation chains of length 1-6 mixing the three builders, with and without names, incl. names containing _variant.',
+             note='Termination is decided as bounded progress (10^4 line events per call); contract evaluation counters and line-event counters must be non-zero or the run is inconclusive. BurnMan worlds cannot be built here (package absent).', ref='4/C16'),
 }
 NA = []
 def main():
